@@ -51,10 +51,10 @@ LOCALE_RULE = ("suite `locale` (harness built with likelysubtags + hook): the re
 PROPS = {
     "C01": {
         "runs": lambda tier: [run("locale", features=["likely"], only_panics=True), run("langid", only_panics=True),
-                              run("subtags", only_panics=True), run("likely", features=["likely"], only_panics=True),
+                              run("subtags", only_panics=True), run("likely", features=["likely"], only_panics=True), run("serde", features=["serde"], only_panics=True),
                               run("locale", features=["likely"], only_panics=True, profile="debug", gen_ops=["big", "loc_hist"]),
                               run("subtags", only_panics=True, profile="debug", gen_ops=["lang_raw", "script_raw", "region_raw", "variant_raw"])],
-        "rule": "all four suites (subtags, langid, locale, likely) under catch_unwind with a recording panic hook and a per-call watchdog; for C01 only panics, "
+        "rule": "all five suites (subtags, langid, locale, likely, serde - the Deserialize impl accepts text too, and a binary format may hand it non-UTF-8 bytes) under catch_unwind with a recording panic hook and a per-call watchdog; for C01 only panics, "
                 "hangs, aborts and the `big` (100k-subtag) cases count; the `big` cases and all operation histories and the raw-integer conversions of the four subtag types are run a second time on an UNOPTIMISED build of the harness and library "
                 "(debug assertions and overflow checks on, no tail-call elimination: recursion depth and arithmetic overflow show up there). " + LOCALE_RULE,
     },
